@@ -276,6 +276,16 @@ pub fn run_case(c: &Case) -> (String, String, Vec<String>) {
 pub fn run(seed: u64, tier: &str, out: &mut Out, fit_only: bool, c04: bool) {
     let mut rng = Rng::new(if c04 { seed ^ 0xC04 } else { seed });
     let n = if tier == "thorough" { 200_000 } else { 3_000 };
+    // lines of enormous height (a message that wraps to 65536·k + r rows on a 4-column terminal): whatever integer type the
+    // row budget is kept in, such a bar does not fit and is left out; the bar line after it stays out too
+    if !fit_only && !c04 {
+        for (k, r, h) in [(1usize, 0usize, 3u16), (1, 2, 4), (2, 1, 3)] {
+            let c = Case { w: 4, h, hz: 0, tpl: 3, len: Some(10), on_finish: Fin::Leave,
+                ops: vec![BOp::Msg("a".into()), BOp::Tick, BOp::Msg("x".repeat(4 * (65536 * k + r))), BOp::Tick, BOp::Inc(1), BOp::Msg("b".into()), BOp::Tick] };
+            let (obs, verdict, ops) = run_case(&c);
+            out.emit(&encode(&c, &ops), &format!("{obs} ORACLE {verdict}"));
+        }
+    }
     for _ in 0..n {
         let c = gen_case(&mut rng, fit_only);
         let (obs, mut verdict, ops) = run_case(&c);
